@@ -150,6 +150,12 @@ func (s *Store) Delete(bid bpv7.BundleID) error {
 			"bundle": bid,
 		}).Info("Store deletes BundleItem")
 
+		// Remove the index entry first: a crash in between leaves orphaned part files, but never an entry
+		// whose parts are gone.
+		if err := s.bh.Delete(bi.Id, BundleItem{}); err != nil {
+			return err
+		}
+
 		for _, bp := range bi.Parts {
 			if err := bp.deleteBundle(); err != nil {
 				log.WithFields(log.Fields{
@@ -160,7 +166,7 @@ func (s *Store) Delete(bid bpv7.BundleID) error {
 			}
 		}
 
-		return s.bh.Delete(bi.Id, BundleItem{})
+		return nil
 	}
 
 	return nil
